@@ -36,6 +36,12 @@ CLAIMED = {
  "C12": ("generated specifier configurations against a reference linear-system solver (determined / under-determined / contradictory), plus print-reparse round trip",
          "Configurations of 1-5 components with specifier kinds {absolute, percent, missing last} and optional caller-supplied system mass are generated from a consistent ground truth (exact number spellings) or perturbed into contradiction; a reference solver classifies them. Determined: must be generable with the reference system mass, every component with percentage and mass, sum 100, absolute = percentage of the system mass, written values kept, and str() re-parses with the same masses. Under-determined: generable False without exception. Contradictory: never generable.",
          "Trusted: gbsv/refmix.py; tolerance 1e-6 relative; degenerate 0 % remainders are outside the domain.", "DESIGN.md §2 C12"),
+ "C13": ("sequence invariant over generated ensembles (seeded explicit and global generators) with residue-level membership verification; refusal of non-generable variants",
+         "Generated systems of 1-4 well-posed components with consistent mixture specifications are iterated; every yielded molecule must be fully generated and a complete instance of exactly one declared component (residue decomposition verified against that component's tokens), the running mass must satisfy s_(k-1) < S <= s_k at the stop and the iterator must stay exhausted; all-percent systems, components without distribution or with negative weights must refuse next() and generate(); generate() on a generable system returns one complete member.",
+         "Trusted: residue tags verified against reference fragments; System.generator driven through the property getter.", "DESIGN.md §2 C13"),
+ "C14": ("generated mixtures of fixed-mass molecules: variance-free interface oracle (probabilities recorded at rng.choice) and statistical outcome oracle (8 sigma of the ideal scheme + overshoot, re-confirmed)",
+         "Systems of 2-4 molecules with heavy-atom masses 12-786 (ratios up to 65) and written mass fractions >= 2 % are generated to 800-2400 molecules; if the selection probabilities at the generator interface are stationary the mass share they imply must equal the written fraction exactly; the generated mass share of every component must lie within 8 sigma (ideal independent picks) plus the stop-rule overshoot of the written fraction, confirmed with a second seed. Convergence is sampled, never proved.",
+         "Trusted: written fractions as ground truth; RDKit heavy-atom masses.", "DESIGN.md §2 C14"),
  "C15": ("breaking operators on generated valid instances with a must-be-rejected oracle (Hypothesis) + byte-level mutation and coverage-guided fuzzing (atheris/libFuzzer) under a deterministic step budget",
          "Generated-input search: 17 breaking operators, each producing an invalid string by construction, are applied at generated positions to valid well-posed molecules of every archetype; the broken string must end in an error at parse or at generate (non-generable for negative weights / missing distribution) - a produced molecule is the violation. Termination of the five constructors is explored with Hypothesis byte mutations of docs/tests strings and two atheris campaigns (seeded and empty corpus) under a line-event budget.",
          "Trusted: each operator's claim that its output is invalid (stated per operator in gbsv/checks/c15.py); termination is bounded liveness: 20000+2000*len line events inside gbigsmiles.", "DESIGN.md §2 C15"),
